@@ -105,7 +105,8 @@ def handle (op : String) (j : Json) : Option Json :=
     | some _, some _ => some (Json.mkObj [("err", Json.str "ctor")])
     | _, _ => some badInput
   else if op == "c19.limits" then
-    some (Json.mkObj [("max_ploidy", ofNat getMaxGenotypePloidy), ("max_alleles", ofNat getMaxGenotypeAlleles)])
+    some (Json.mkObj [("max_ploidy", ofNat getMaxGenotypePloidy), ("max_ploidy_repaired", ofNat getMaxGenotypePloidyRepaired),
+      ("max_alleles", ofNat getMaxGenotypeAlleles)])
   else if op == "c19.binom" then
     match getInt? j "n", getInt? j "k" with
     | some n, some k =>
